@@ -555,6 +555,11 @@ func (p *Proxy) handleConnectRequest(ctx *Context, req *http.Request, session *S
 		brw.Reader.Discard(n)
 	}
 
+	// The deadline set in handleLoop bounds one HTTP exchange. A tunnel carries
+	// as many exchanges as its ends like: the timeout applies to its silence,
+	// not to its lifetime, so every byte that arrives from either end renews it.
+	active := func() { conn.SetDeadline(time.Now().Add(p.timeout)) }
+
 	copySync := func(w io.Writer, r io.Reader, donec chan<- bool) {
 		// Handed w itself, io.Copy ends up in bufio.Writer.ReadFrom, which passes
 		// bytes on as they arrive only if the connection behind w implements
@@ -562,7 +567,7 @@ func (p *Proxy) handleConnectRequest(ctx *Context, req *http.Request, session *S
 		// listener or SetDial hands out, need not) and otherwise holds them back
 		// until the buffer is full or the stream ends.
 		fw := &flushWriter{w: w}
-		if _, err := io.Copy(fw, r); err != nil && err != io.EOF {
+		if _, err := io.Copy(fw, &activityReader{r: r, active: active}); err != nil && err != io.EOF {
 			log.Errorf("martian: failed to copy CONNECT tunnel: %v", err)
 		}
 
@@ -772,6 +777,20 @@ func (p *Proxy) handle(ctx *Context, conn net.Conn, brw *bufio.ReadWriter) error
 		closing = errClose
 	}
 	return closing
+}
+
+// An activityReader reports every read that returned data.
+type activityReader struct {
+	r      io.Reader
+	active func()
+}
+
+func (a *activityReader) Read(p []byte) (int, error) {
+	n, err := a.r.Read(p)
+	if n > 0 {
+		a.active()
+	}
+	return n, err
 }
 
 // A flushWriter passes every write on to the connection behind w at once and
